@@ -1,3 +1,14 @@
+#[cfg(metrics_verif)]
+use metrics::__verif::sync::atomic::{AtomicBool, AtomicU64};
+#[cfg(metrics_verif)]
+use std::{
+    slice::Iter,
+    sync::{
+        atomic::Ordering::{AcqRel, Acquire, Relaxed, Release},
+        Arc,
+    },
+};
+#[cfg(not(metrics_verif))]
 use std::{
     slice::Iter,
     sync::{
